@@ -97,7 +97,8 @@ def check(spec):
         for k in idxs:
             exp = S.ref_item(ref, item, k)
             try:
-                got = fn(k)
+                # the index parameter is called idx in every getitem_* signature of the library: both call forms address the same sample
+                got = fn(idx=k) if k % 3 == 0 else fn(k)
             except Exception as e:
                 raise Violation(f"getitem-raises:{type(e).__name__}:{'neg' if k < 0 else 'pos'}",
                                 f"getitem_{item}({k}) raised {e!r}"[:300])
